@@ -188,6 +188,22 @@ _OB = {
     "ob_prepared_slice": (["C15", "C01", "C10"], ["traits::BumpAllocatorTyped::{try_prepare_slice_allocation,allocate_prepared_slice,try_prepare_slice_allocation_rev,allocate_prepared_slice_rev} (BumpScope)", "traits::BumpAllocatorCore::{prepare_allocation,allocate_prepared,prepare_allocation_rev,allocate_prepared_rev} (BumpScope)", "raw_bump::RawBump::{prepare_slice_allocation,prepare_slice_allocation_rev,prepare_allocation_range}"],
                           "prepare and filling change no header field; capacity >= requested, range inside the free part; commit yields exactly len elements equal to the pushed ones (in order; reversed pushing for _rev), block inside the prepared range at its bump-side end, position = end/start of the block aligned to MIN_ALIGN, advance < size + padding; wf",
                           "one chunk of 48 bytes, T=u16, cap request <=3, len<=cap"),
+    "ob_overflow_and_reserve": (["C07"], ["raw_bump::RawBump::{alloc_slice,prepare_slice_allocation,prepare_allocation_range,reserve}", "layout::ArrayLayout::array"],
+                                "a slice length whose byte size exceeds isize::MAX is an error (no panic, no wrap) for every usize length; reserve with a refusing base allocator moves nothing and is Ok iff the remaining capacity suffices; invariant holds, nothing leaked",
+                                "K=2, base allocator refuses new chunks; lengths over the full usize domain"),
+    "ob_raw_round_trip": (["C05"], ["raw_bump::RawBump::{into_raw,from_raw}"], "from_raw(into_raw(b)) has the same chunk pointer; no header touched, no base-allocator call", "K=2"),
+    "ob_with_settings_allocated": (["C18", "C10"], ["raw_bump::RawBump::{ensure_satisfies_settings,ensure_satisfies_settings_for_borrow_mut,align_to}"],
+                                   "on an allocated, unclaimed arena the conversion returns, the position is a multiple of the new (and old) minimum alignment, allocated bytes grow by < 16, wf; borrow_mut conversion is then the identity",
+                                   "K=2, (1->16 up), (1->8 down)"),
+    "ob_with_settings_unallocated": (["C18"], ["raw_bump::RawBump::ensure_satisfies_settings"],
+                                     "conversion to GUARANTEED_ALLOCATED on an unallocated arena never returns (panics); conversion keeping GUARANTEED_ALLOCATED=false returns and the arena stays unallocated",
+                                     "loop-free"),
+    "ob_mut_vec": (["C15", "C08"], ["mut_bump_vec::MutBumpVec::{new_in,try_push,generic_grow_amortized,generic_grow_to,into_slice,into_slice_ptr,drop}", "mut_bump_vec_rev::MutBumpVecRev::{new_in,try_push,generic_grow_amortized,generic_grow_to,into_slice,into_slice_ptr,drop}", "fixed_bump_vec::raw::RawFixedBumpVec::*"],
+                   "pushing (including the growth that prepares a bigger range) never moves the bump position; dropping an unfinalised vector leaves the position where it was; into_slice yields exactly the pushed elements (rev: last pushed first), allocated, position advanced by contents + padding < max(align, MIN_ALIGN); len/capacity consistent; wf",
+                   "one chunk of 48 bytes, element u16, <=3 pushes, base allocator refuses new chunks"),
+    "ob_mut_vec_failed_grow": (["C07", "C15", "C10"], ["mut_bump_vec::MutBumpVec::{try_push,try_reserve,generic_grow_amortized,generic_grow_to,into_slice}", "raw_bump::RawBump::{prepare_slice_allocation,prepare_allocation_range,in_another_chunk}", "traits::BumpAllocatorCore::allocate_prepared (BumpScope)"],
+                               "a reservation that fails (no chunk fits, base allocator refuses) after the slow path looked at a cached later chunk: length and contents unchanged, current chunk unchanged, into_slice still yields the elements inside allocated memory, allocated bytes account for the slice, wf; a reservation that succeeds in the later chunk keeps the elements",
+                               "K=2 (48+112 bytes), element u8, <=2 pushes, reserve <=400"),
     "ob_second_claim_panics": (["C14"], ["raw_bump::RawBump::claim"], "a second claim does not return (panics)", "should_panic harness"),
     "ob_claim_guard": (["C14", "C10"], ["bump_claim_guard::BumpClaimGuard::{new,deref,deref_mut,drop}", "traits::BumpAllocatorScope::claim"],
                        "while the guard lives the original is claimed and fails; allocations through the guard stay live; a scope opened through the guard is fully undone; after drop the original is unclaimed and continues on a real chunk; wf",
@@ -195,7 +211,7 @@ _OB = {
 }
 
 # duplicates of a quick obligation that are slow: thorough tier only
-_THOROUGH = {"scope_guard_dn8", "scoped_closure_up8", "claim_guard_dn8", "aligned_up8_to2", "scoped_aligned_up1_to8",
+_THOROUGH = {"mut_vec_dn8", "mut_vec_rev_up8", "scope_guard_dn8", "scoped_closure_up8", "claim_guard_dn8", "aligned_up8_to2", "scoped_aligned_up1_to8",
              "bump_alloc_up8_k3", "stats_up1_zst_k3"}
 
 for (_f, _name, _gen, _args) in _arena_h():
@@ -204,14 +220,13 @@ for (_f, _name, _gen, _args) in _arena_h():
     _props, _fns, _text, _bound = _OB[_gen]
     _thorough = (_f == "h_realloc" and (_name.endswith("_k2") or _name.endswith("_128"))) or _name in _THOROUGH
     k("%s::%s" % (_f, _name), _props, _fns, "B", _text, tier=("thorough" if _thorough else "quick"), bound=_bound,
-      timeout=(2400 if _thorough else 900), inst=_args)
+      timeout=(2400 if _thorough else (1800 if _gen == "ob_mut_vec" else 900)), inst=_args)
 
 # ----------------------------------------------------------------------------- collections over fixed buffers (h_coll.rs)
 _CB = "len<=4 (drop counting: len<=3), capacity 5, element type u8 / drop-counting token, fixed local buffer"
 for _n, _p, _fns, _t in [
     ("vec_remove_pop_truncate", ["C08"], ["bump_box::BumpBox<[T]>::{remove,swap_remove,pop,truncate,clear}"], "same return value, length and contents as std::vec::Vec for every in-range index"),
     ("vec_retain_dedup", ["C08"], ["bump_box::BumpBox<[T]>::{retain,dedup,dedup_by}"], "same contents as Vec::retain / Vec::dedup"),
-    ("vec_drain", ["C08"], ["bump_box::BumpBox<[T]>::drain", "owned_slice::drain::Drain::{next,next_back,drop}"], "yields the same elements from either end as Vec::drain and leaves the same rest, for every range"),
     ("fixed_vec_push_insert_extend", ["C08", "C07"], ["fixed_bump_vec::FixedBumpVec::{try_push,try_insert,try_extend_from_slice_copy,try_resize,capacity,len}"], "same contents as Vec after push/insert/extend/resize within capacity; capacity >= len; buffer address and capacity never change"),
     ("fixed_vec_full_fails", ["C08", "C07"], ["fixed_bump_vec::FixedBumpVec::{try_push,try_insert,try_extend_from_slice_copy,try_resize,is_full}"], "a full fixed vector reports an error for every growing operation and keeps length and contents"),
     ("zst_capacity_unlimited", ["C08"], ["fixed_bump_vec::FixedBumpVec::<()>::{new,capacity,try_push,pop}"], "zero-sized elements: capacity usize::MAX"),
@@ -225,7 +240,6 @@ for _n, _p, _fns, _t in [
     ("drops_swap_remove", ["C06"], ["bump_box::BumpBox<[T]>::swap_remove"], "every element dropped exactly once"),
     ("drops_pop", ["C06"], ["bump_box::BumpBox<[T]>::pop"], "every element dropped exactly once"),
     ("drops_retain", ["C06"], ["bump_box::BumpBox<[T]>::retain"], "every element dropped exactly once"),
-    ("drops_drain", ["C06"], ["bump_box::BumpBox<[T]>::drain", "owned_slice::drain::Drain"], "partially consumed drain: every element dropped exactly once"),
     ("leak_routes_skip_drop", ["C06"], ["bump_box::BumpBox::{leak,into_raw}"], "the explicit leak routes drop nothing"),
     ("into_iter_drops_rest", ["C06"], ["owned_slice::into_iter::IntoIter::{next,next_back,drop}"], "partially consumed IntoIter (both ends): every element dropped exactly once"),
 ]:
